@@ -1211,3 +1211,19 @@ Lemma non_utf8_now_refused_by_readers :
   unmarshal_kv [(k_tid, [255])] = None /\ unmarshal_url [(k_tid, [[255]])] = None
   /\ unmarshal_bin (frames [(k_tid, [255])]) = None.
 Proof. vm_compute. repeat split; reflexivity. Qed.
+
+(* a key that occurs more than once in the URL form is an error WHATEVER its values - also when
+   they are byte-identical (the carrier is a list of value LISTS, nothing is deduplicated) *)
+Lemma url_rejects_repeated_key init vals k v n :
+  In (k, repeat v (S (S n))) vals -> unmarshal_url_into init vals = None.
+Proof.
+  intros Hin. apply (url_rejects_multi init vals k (repeat v (S (S n))) Hin).
+  rewrite repeat_length. discriminate.
+Qed.
+
+Lemma repeated_key_rejected_example :
+  unmarshal_url [(k_enc, [enc_json; enc_json]); (k_clevel, [s2b "6"])] = None
+  /\ unmarshal_url [(k_cwinbits, [s2b "15"; s2b "15"; s2b "15"])] = None
+  /\ unmarshal_url [(s2b "foo", [s2b "bar"; s2b "bar"])] = None
+  /\ unmarshal_url [(k_enc, [enc_json]); (k_clevel, [s2b "6"])] = Some (mkP enc_json [] (Some 6%Z) None [] false [] 0 0).
+Proof. vm_compute. repeat split; reflexivity. Qed.
